@@ -63,6 +63,7 @@ Explicit refusals are counted, not violations; the documented RuntimeError of ex
 for symbols without a declaration ("... are undefined in both ...") is such a refusal.
 Never generated: pragma overrides that contradict the region's real data flow.
 """
+import os
 import re
 
 from vf import xform, xfast
@@ -562,6 +563,11 @@ def sigfn(results_by_id):
     return sig
 
 
+# wall-clock budget after which no further chunk of pair cases is started (thorough tier); the run then reports the
+# completed bound (max_blocks=1) and exhaustive=False instead of overrunning on a loaded machine
+CAP_S = float(os.environ.get('VERIF_CAP_S', 780))
+
+
 def run(ctx):
     d = 1 if ctx.quick else 2
     allcases = make_cases(d)
@@ -574,17 +580,20 @@ def run(ctx):
     dead = {c['id'].split('|', 1)[1] for c, r in zip(first, res1)
             if not c['switches'] and r['verdict'] not in ('ok', 'unchanged-ok', 'refused')}
     pairs = [c for c in allcases if len(c['switches']) > 1]
-    second = [c for c in pairs if c['id'].split('|', 1)[1] not in dead]
-    res2 = xform.judge_cases(ctx, second, worker) if second else []
+    second = xfast.interleave([c for c in pairs if c['id'].split('|', 1)[1] not in dead], lambda c: c['id'].split('|', 1)[1])
+    second, res2, complete = xfast.judge_until(ctx, second, worker, CAP_S) if second else ([], [], True)
     cases, results = first + second, res1 + res2
     by_id = {r['id']: r for r in results}
     xform.summarise(ctx, cases, results, sigfn(by_id))
     npb = sum(len(c['passback']) for c in cases)
     fams = sorted({c['family'] for c in cases})
     ctx.require(npb >= 20, f'vacuous: only {npb} written-then-read obligations were checked')
+    npairs = len([c for c in pairs if c['id'].split('|', 1)[1] not in dead])
+    if not complete:
+        ctx.note(f'time cap {CAP_S}s hit: {len(second)} of {npairs} pair cases judged; bound completed: max_blocks=1')
     ctx.cov.update(
-        exhaustive=True,
-        bound=dict(max_blocks=d, region_blocks=len(RBLOCKS), internal_blocks=len(IBLOCKS), module_switches=len(MSWITCHES),
+        exhaustive=complete, pairs_judged=len(second), pairs_total=npairs,
+        bound=dict(max_blocks=d if complete else 1, region_blocks=len(RBLOCKS), internal_blocks=len(IBLOCKS), module_switches=len(MSWITCHES),
                    families=fams, variants={k: len(v) for k, v in XFORMS.items()}),
         passback_obligations=npb, variants_with_violating_base=sorted(dead), pairs_not_run_behind_violating_base=len(pairs) - len(second),
         rule=f'all combinations of <= {d} feature blocks ({len(RBLOCKS)} region, {len(IBLOCKS)} internal-procedure, '
